@@ -1,3 +1,133 @@
+/-
+C14 driver: one scenario line in → the set of final observations the model allows, in the
+canonical form of the Go harness (go/props/c14).
+
+  sc p=<pipeline> keep=<g,g,..> feed=<chan>#k:<prog>;.. cons=<chan>#k:<mode>;.. ctl=<op,op,..>
+     pick=<site substring>:<i>;.. pre=<0|1> obs=<chan>#k;..
+
+* `keep`  : goroutines of the regenerated pipeline (by function name prefix) that are the code under test;
+* `feed`  : harness feeders of input channels (`s` send, `c` close), each started by the controller;
+* `cons`  : harness consumers of output channels (`all`, `ctx`, `n<k>`);
+* `ctl`   : what the harness does, each step after the system went quiet:
+            `f<i>` start feeder i, `x` cancel the pipeline context, `r` release the feeders;
+* `pick`  : resolve a data-dependent branch (node whose site contains the text) to its i-th successor;
+* `pre=1` : the pipeline context is already done when the stage starts.
+  wf <pipeline>     → the violations of the well-formedness rules on the regenerated IR
+-/
+import DosModel.Model.PipeExplore
+import DosModel.Model.PipeWf
 import DosModel.Model.Util
--- stub: no model driver for this property yet
-def main : IO Unit := Dos.lineLoop (fun _ => "unimplemented")
+import DosModel.Gen.PipeIR
+
+open Dos Dos.Pipe
+
+def kvs (ws : List String) : List (String × String) :=
+  ws.filterMap fun w => match w.splitOn "=" with
+    | k :: rest => if rest.isEmpty then none else some (k, String.intercalate "=" rest)
+    | _ => none
+
+def look (m : List (String × String)) (k : String) : String :=
+  match m.find? (·.1 == k) with
+  | some x => x.2
+  | none => ""
+
+def listOf (s : String) (sep : String) : List String :=
+  if s == "" || s == "-" then [] else s.splitOn sep
+
+/-- `<chan>#k` → channel index -/
+def chanRef (p : Pipeline) (s : String) : Option Ch :=
+  match s.splitOn "#" with
+  | [n] => p.chanByName n 0
+  | [n, k] => match k.toNat? with
+    | some k => p.chanByName n k
+    | none => none
+  | _ => none
+
+/-- does the decision path `cond` ("text:i;text:j;..") agree with picking branch `i` of the
+    decision whose text contains `site`? -/
+def condAgrees (cond site : String) (i : Nat) : Bool :=
+  (cond.splitOn ";").all fun d =>
+    match (d.splitOn ":").reverse with
+    | idx :: rest =>
+      let text := String.intercalate ":" rest.reverse
+      if (text.splitOn site).length > 1 then idx.toNat? == some i else true
+    | [] => true
+
+/-- resolve a data-dependent decision: successors of branch nodes that stand for another outcome
+    of the decision are removed -/
+def applyPick (p : Pipeline) (keep : List Gi) (site : String) (i : Nat) : Pipeline :=
+  { p with gs := p.gs.zipIdx.map fun x =>
+      if !keep.contains x.2 then x.1 else
+      { x.1 with nodes := x.1.nodes.zipIdx.map fun nd =>
+          match nd.1 with
+          | .branch ns =>
+            let conds := x.1.conds[nd.2]?.getD []
+            let kept := ns.zipIdx.filterMap fun s =>
+              if condAgrees (conds[s.2]?.getD "") site i then some s.1 else none
+            if kept.isEmpty then nd.1 else .branch kept
+          | _ => nd.1 } }
+
+def runScenario (m : List (String × String)) : String :=
+  match Gen.Pipes.all.find? (·.name == look m "p") with
+  | none => "error unknown-pipeline"
+  | some p0 =>
+    let keep := (listOf (look m "keep") ",").flatMap p0.gsByPrefix
+    let p1 := (listOf (look m "pick") ";").foldl (fun p s =>
+      match s.splitOn ":" with
+      | [site, i] => applyPick p keep (site.replace "_" " ") (i.toNat?.getD 0)
+      | _ => p) p0
+    let feeds := (listOf (look m "feed") ";").map fun s =>
+      match s.splitOn ":" with
+      | [c, prog] => (chanRef p1 c, if prog == "-" then [] else prog.toList)
+      | [c] => (chanRef p1 c, [])
+      | _ => (none, [])
+    let conss := (listOf (look m "cons") ";").map fun s =>
+      match s.splitOn ":" with
+      | [c, mode] => (chanRef p1 c, mode)
+      | _ => (none, "")
+    let obs := (listOf (look m "obs") ";").map (chanRef p1)
+    if feeds.any (·.1.isNone) || conss.any (·.1.isNone) || obs.any Option.isNone then "error unknown-channel" else
+    let rel := p1.nctx
+    let gate (i : Nat) := p1.nctx + 1 + i
+    let feeders := feeds.zipIdx.map fun x =>
+      -- gate, then the program (shifted by one node)
+      let body := feederNodes (x.1.1.getD 0) rel x.1.2
+      let shifted := body.map (Node.shift 1)
+      mkG ("harness.feeder" ++ toString x.2) (Node.sel [.ctx (gate x.2) 1] :: shifted)
+    let consumers := conss.filterMap fun x => (consumerNodes (x.1.getD 0) x.2).map (mkG "harness.consumer")
+    let ctlOps := listOf (look m "ctl") ","
+    let goGate := gate feeds.length
+    let gated := ctlOps.contains "go"
+    let ctlCtxs := ctlOps.filterMap fun op =>
+      if op == "x" then some 0 else if op == "r" then some rel else if op == "go" then some goGate
+      else if op.startsWith "f" then (op.drop 1).toNat?.map gate else none
+    let ctl := mkG "harness.controller" (controllerNodes ctlCtxs)
+    let extra := feeders ++ consumers ++ [ctl]
+    -- `go` in the script: the code under test is started by the controller
+    let gateG (x : Goroutine × Nat) : Goroutine :=
+      if keep.contains x.2 && !x.1.daemon && x.1.static then
+        { x.1 with nodes := Node.sel [.ctx goGate 1] :: x.1.nodes.map (Node.shift 1), sites := "start" :: x.1.sites }
+      else x.1
+    let p1 : Pipeline := if gated then { p1 with gs := p1.gs.zipIdx.map gateG } else p1
+    let p2 := p1.surgery keep extra (p1.nctx + 2 + feeds.length)
+    let sc : Scenario := { p := p2, controller := some (p2.gs.length - 1),
+                           watched := keep.filter (fun g => match p2.gs[g]? with | some gr => !gr.daemon | none => false),
+                           observed := obs.filterMap id }
+    -- pre=1: the stage is started with its context already done
+    let e := if look m "pre" == "1" then sc.exploreFrom ((init sc.p).setCtx 0) else sc.explore
+    (if e.truncated then "TRUNCATED " else "") ++ String.intercalate " | " e.finals
+
+def runWf (name : String) : String :=
+  match Gen.Pipes.all.find? (·.name == name) with
+  | none => "error unknown-pipeline"
+  | some p =>
+    let v := violations p
+    if v.isEmpty then "wf" else String.intercalate " " (v.map Violation.show)
+
+def step (line : String) : String :=
+  match words line with
+  | "sc" :: rest => runScenario (kvs rest)
+  | ["wf", name] => runWf name
+  | _ => "error bad-line"
+
+def main : IO Unit := lineLoop step
